@@ -13,8 +13,8 @@ import vlib
 PID = "C11"
 DEFS = ("mpt_loop=drv_mpt_loop", "mpt_notify_wait=hk_notify_wait", "mpt_notify_next=hk_notify_next")
 CFG = {
-    "quick":    dict(mc="MC_Notify.cfg",   gens=["Gen_Notify.cfg"],   nhist=40,  steps=60),
-    "thorough": dict(mc="MC_Notify_t.cfg", gens=["Gen_Notify_t.cfg"], nhist=400, steps=120),
+    "quick":    dict(mcs=["MC_Notify.cfg"], gens=["Gen_Notify.cfg"], dump=False, nhist=30, steps=60),
+    "thorough": dict(mcs=["MC_Notify_t.cfg", "MC_Notify_t3.cfg"], gens=["Gen_Notify_t.cfg"], dump=True, nhist=300, steps=120),
 }
 ENV = {"ASAN_OPTIONS": vlib.ASAN_ENV + ":symbolize=0"}
 CHUNK = 6000
@@ -307,36 +307,69 @@ def run_part(ck, tier):
         _l[0] = time.time()
     mark("build")
     # 1. model
-    res = vlib.tlc("MC_Notify", cfg["mc"])
-    ck.add_tlc(res, "exhaustive " + cfg["mc"])
+    for mc in cfg["mcs"]:
+        res = vlib.tlc("MC_Notify", mc)
+        ck.add_tlc(res, "exhaustive " + mc)
 
     mark("model_check")
     # 2. binding A
-    behs = []
-    for g in cfg["gens"]:
-        gen = vlib.tlc("Gen_Notify", g, workers=1, tag="Gen_Notify_" + g.split(".")[0][4:])
-        if gen.error or gen.violation:
-            raise vlib.MachineryError("behaviour export failed (%s): %s %s" % (g, gen.error, gen.violation))
-        behs += vlib.parse_behaviours(gen.out)
-    mark("behaviour_export")
-    recs, done = run_chunks(exe, behs)
-    mms = vlib.compare(behs[:done], recs, match)
-    mark("replay")
-    accepted, soft, kinds = defer(ck, behs, recs, mms)
-    mark("deferred_to_tlc")
-    by = vlib.group_records(recs)
     nt = set()
-    for b, beh in enumerate(behs[:done]):
-        if nontrivial(by.get(b, [])):
-            nt.add(key_of(beh))
+    if cfg["dump"]:
+        # large dumps: streamed, parallel replay; the behaviours that differ are run again and handed to TLC
+        ngen = done = 0
+        behs, recs, mms = [], [], []
+        for g in cfg["gens"]:
+            path = os.path.join(vlib.WORK, "x11-%s-%d.out" % (g.split(".")[0], os.getpid()))
+            try:
+                gen = vlib.tlc_to_file("Gen_Notify", g, path, workers=1)
+                if gen.error:
+                    raise vlib.MachineryError("behaviour export failed (%s): %s" % (g, gen.error))
+                mark("behaviour_export")
+                tot = vlib.replay_file(path, exe, match=match, nontrivial=nontrivial, chunk=8000, procs=8)
+            finally:
+                if os.path.exists(path):
+                    os.unlink(path)
+            ngen += tot["n"]
+            done += tot["n"]
+            nt |= tot["nontrivial"]
+            notes["replay_mismatches_first_pass"] = notes.get("replay_mismatches_first_pass", 0) + tot["mismatches"]
+            behs += [d["behaviour"] for d in tot["details"]]
+            if tot["samples"]:
+                ck.cov["samples"] = ck.cov.get("samples", []) + tot["samples"][:1]
+        mark("replay")
+        if behs:
+            recs, _ = run_chunks(exe, behs)
+            mms = vlib.compare(behs, recs, match)
+        accepted, soft, kinds = defer(ck, behs, recs, mms)
+        mark("deferred_to_tlc")
+        notes["behaviours_generated"] = ngen
+    else:
+        behs = []
+        for g in cfg["gens"]:
+            gen = vlib.tlc("Gen_Notify", g, workers=1, tag="Gen_Notify_" + g.split(".")[0][4:])
+            if gen.error or gen.violation:
+                raise vlib.MachineryError("behaviour export failed (%s): %s %s" % (g, gen.error, gen.violation))
+            behs += vlib.parse_behaviours(gen.out)
+        mark("behaviour_export")
+        recs, done = run_chunks(exe, behs)
+        mms = vlib.compare(behs[:done], recs, match)
+        mark("replay")
+        accepted, soft, kinds = defer(ck, behs, recs, mms)
+        mark("deferred_to_tlc")
+        by = vlib.group_records(recs)
+        for b, beh in enumerate(behs[:done]):
+            if nontrivial(by.get(b, [])):
+                nt.add(key_of(beh))
+        notes["behaviours_generated"] = len(behs)
+        if done < len(behs):
+            notes["replay_cut_short"] = "more than %d crashes" % MAX_FAULTS
+        if behs:
+            ck.cov["samples"] = ck.cov.get("samples", []) + [vlib.sample_repr(behs[len(behs) // 2])]
     ck.cov["evaluations"] += done
-    notes["behaviours_generated"] = len(behs)
     notes["replayed_behaviours"] = done
     notes["replay_differences_handed_to_tlc"] = soft
     notes["of_these_accepted_by_tlc"] = accepted
     notes["replay_mismatch_kinds"] = kinds
-    if done < len(behs):
-        notes["replay_cut_short"] = "more than %d crashes" % MAX_FAULTS
 
     # 3. binding B: seeded histories (fine-grained calls and runs of the real mpt_loop) validated by TLC
     hist = gen_histories(ck, cfg["nhist"], cfg["steps"])
@@ -362,8 +395,6 @@ def run_part(ck, tier):
                      "listed / in-hand inputs, messages on the wire, ids buffered, end of data, pending connections, "
                      "dispatcher attached, ids with a handler) replayed into the C functions; differences go to TLC.  "
                      "B: seeded histories over up to 7 inputs of all kinds with runs of the real mpt_loop, validated by TLC.")
-    if behs:
-        ck.cov["samples"] = ck.cov.get("samples", []) + [vlib.sample_repr(behs[len(behs) // 2])]
     ck.assumptions += ["drv/notify.c projects without judgement (maps pointers in notify._slot/_wait to input tokens, "
                        "detects release of library inputs by their descriptor's inode, logs handler and harness-input calls)",
                        "mptio/notify/loop.c is compiled into the driver with mpt_notify_wait/next renamed to recording hooks "
